@@ -252,18 +252,17 @@ func (m *C01) OnBlock(e *Env, blk *world.BlockRecord) {
 	expOld := int64(m.params.ExpirationBlockCount)
 	expNew := int64(paramsAfter.ExpirationBlockCount)
 	chainLast := k.GetRequestLastExpired(ctx)
-	lastA, expA := expire(expOld, false)
+	// the expiration window in force is the one AFTER this block's governance execution: parameters change only through a
+	// proposal executed by the gov end blocker, which runs before the oracle end blocker
 	lastB, expB := expire(expNew, false)
 	var expired []uint64
-	switch {
-	case uint64(chainLast) == lastA:
-		expired = expA
-	case uint64(chainLast) == lastB:
-		expired = expB
-		e.St.Probe("expiry_param_changed_in_block")
-	default:
-		e.Fail("C01", "expiry_height", "", "last expired request on chain %d; model %d (expiration_block_count %d) at height %d", chainLast, lastA, expOld, blk.Height)
+	if uint64(chainLast) != lastB {
+		e.Fail("C01", "expiry_height", "", "last expired request on chain %d; model %d (expiration_block_count %d, before this block %d) at height %d", chainLast, lastB, expNew, expOld, blk.Height)
 		return
+	}
+	expired = expB
+	if expNew != expOld {
+		e.St.Probe("expiry_param_changed_in_block")
 	}
 	for _, id := range expired {
 		rq := m.reqs[id]
